@@ -437,7 +437,7 @@ func runC17(p *Prog, r *Report) {
 				}
 			} else if absentEdge {
 				// computed: uint32(buf.Len())
-				if c, ok := canon(arg).(*ssa.Call); ok {
+				if c, ok := stripAllConv(arg).(*ssa.Call); ok {
 					if f := c.Call.StaticCallee(); f != nil && f.Name() == "Len" {
 						okComputed = true
 					}
